@@ -11,4 +11,5 @@ import LapyVerif.Audit.C10
 import LapyVerif.Audit.C11
 import LapyVerif.Audit.C12
 import LapyVerif.Audit.C13
+import LapyVerif.Audit.C15
 import LapyVerif.Audit.C20
